@@ -408,9 +408,14 @@ def runtime_level(ctx, exe):
     if rc != 0:
         raise core.Infra("h_fmt rt failed: rc=%s %s" % (rc, err[-400:]))
     K, T, I, F, A = {}, [], {}, [], []
+    pools, numvals = {}, {}
     for l in out.splitlines():
         p = l.split(" ")
-        if p[0] == "K":
+        if p[0] == "P":
+            pools[p[1]] = int(p[2])
+        elif p[0] == "N":
+            numvals[p[1]] = dec(p[2])
+        elif p[0] == "K":
             K[p[1]] = (dec(p[2]), p[3])
         elif p[0] == "T":
             T.append((p[1], p[2], p[3], p[4], dec(p[5]) if len(p) > 5 else ""))
@@ -420,8 +425,11 @@ def runtime_level(ctx, exe):
             I[(p[1], p[2], p[3])] = dec(p[4]) if len(p) > 4 else ""
         elif p[0] == "F":
             F.append((dec(p[1]), p[2], p[3], p[4], dec(p[5]) if len(p) > 5 else ""))
-    if not K or not T or not I or not F:
+    if not K or not T or not I or not F or set(pools) != set("ncdtDl"):
         raise core.Infra("h_fmt rt printed no results")
+
+    def value_of(code, vi):
+        return numvals.get(str(vi)) if code and code[0] in "nc" else None
     findings = []   # (class, record)
     n_cmp = 0
     byfmt = {}      # (fmt code, locale, value id) -> direct ICU output, for the macro calls
@@ -442,8 +450,10 @@ def runtime_level(ctx, exe):
         if exp is None:
             raise core.Infra("no oracle line for %s %s %s" % (k, ln, vi))
         rec = {"level": "generated code", "key_text": K[k][0], "parser_formatter": K[k][1], "locale": ln, "value_id": vi,
-               "flavour": {"s": "td_string!", "d": "td_display!", "h": "td!(..).to_html()"}[fl], "observed": got,
-               "icu4x_direct": exp}
+               "flavour": {"s": "td_string!", "d": "td_display!", "h": "td!(..).to_html()", "S": "td_string! fed a DateTime",
+                           "V": "td_string! fed a Vec<String>"}[fl], "observed": got, "icu4x_direct": exp}
+        if value_of(K[k][1], vi):
+            rec["value"] = value_of(K[k][1], vi)
         if exp == "PANIC":
             findings.append(("C18-time-zone-lengths" if got == "PANIC" else "spec", rec))
         elif not same(fl, got, exp):
@@ -460,10 +470,10 @@ def runtime_level(ctx, exe):
     fseen = {}
     for tokens, ln, vi, fl, got in F:
         fseen.setdefault(tokens, []).append((ln, vi, fl, got))
-    return findings, {"rt_comparisons": n_cmp, "rt_keys": len(K)}, K, fseen, byfmt
+    return findings, {"rt_comparisons": n_cmp, "rt_keys": len(K), "value_pools": pools, "numeric_inputs": numvals}, K, fseen, byfmt
 
 
-def macro_level(exe, fseen, byfmt):
+def macro_level(exe, fseen, byfmt, numvals=None):
     """td_format_string!/td_format_display!: the formatter is what from_name_and_args selects for the identifiers"""
     toks = sorted(fseen)
     lines, src = [], []
@@ -482,6 +492,8 @@ def macro_level(exe, fseen, byfmt):
             exp = byfmt.get((code, ln, vi))
             rec = {"level": "t*_format! macro", "formatter_tokens": t, "selected_formatter": o, "locale": ln, "value_id": vi,
                    "flavour": {"s": "td_format_string!", "d": "td_format_display!"}[fl], "observed": got, "icu4x_direct": exp}
+            if numvals and code and code[0] in "nc":
+                rec["value"] = numvals.get(str(vi))
             if exp is None:
                 # no key with exactly this formatter: only the time-zone lengths are expected here
                 exp = "PANIC" if re.search(r"time_length:\s*(full|long)", t) else None
@@ -495,13 +507,13 @@ def macro_level(exe, fseen, byfmt):
     return findings, n, extra
 
 
-def ops_level(ctx, exe, K):
+def ops_level(ctx, exe, K, pools):
     """random operation sequences on the process-wide cache: one thread vs 8 threads racing on first use"""
     rng = ctx.rng
     codes = sorted({c for _, c in K.values() if c not in ("?", "N")})
     tz = [c for c in codes if re.match(r"^(t[01]|D\d_[01])$", c)]
     ok_codes = [c for c in codes if c not in tz]
-    nvals = {"n": 10, "c": 10, "d": 4, "t": 4, "D": 16, "l": 6}
+    nvals = pools
     locales = ["en", "fr", "ar", "ja"]
     rounds = 6 if ctx.quick else 30
     nops = 400 if ctx.quick else 1200
@@ -642,11 +654,11 @@ def run(ctx):
     exe = os.environ.get("C18_EXE") or os.path.join(bindir, "h_fmt")
     items, meta = parser_level(ctx, exe)
     rt_find, rt_stats, K, fseen, byfmt = runtime_level(ctx, exe)
-    mac_find, mac_n, extra = macro_level(exe, fseen, byfmt)
+    mac_find, mac_n, extra = macro_level(exe, fseen, byfmt, rt_stats["numeric_inputs"])
     for name, args, o in extra:
         items.append(direct_item(name, args, o))
         meta.append({"kind": "direct", "name": name, "args": args, "impl": o, "from": "t*_format! tokens of the harness"})
-    ops_find, ops_stats = ops_level(ctx, exe, K)
+    ops_find, ops_stats = ops_level(ctx, exe, K, rt_stats["value_pools"])
     doc_find, doc_stats = doc_level(exe)
     codes = core.coq_eval(ctx, "c18", PRE, items, "check")
     bad_spec = [m for m, c in zip(meta, codes) if c == 3]
@@ -707,7 +719,12 @@ def run(ctx):
                 "or each value) x 4 white-space layouts; random = grammar-derived texts (names, option names/values from the "
                 "documented table plus near misses, junk elements, tails, duplicates) with random White_Space padding around "
                 "every token; raw = mutated texts, each run bare and padded; direct = Formatter::from_name_and_args on (name, "
-                "args). Runtime level: %d keys of a declare_locales! module x en/fr/ar/ja x sample values x "
+                "args). Runtime level: %d keys of a declare_locales! module x en/fr/ar/ja x sample values (numbers as the Rust "
+                "value of every type IntoFixedDecimal accepts: u8..u128/usize/i8..i128/isize at MIN/MAX/0/+-1, f32 and f64 at +-0.0, "
+                "subnormals, 2^24+-1, 2^53+-1, whole floats up to 2^64, 1e15..1e23, 0.1+0.2, 1e-7, extremes, FixedDecimal; the oracle "
+                "converts them the documented way: From for integers, try_from_f64(v, Floating) for floats; dates incl. epoch, leap days, "
+                "years -1/0/1/9999, as Date and as DateTime; times incl. midnight, 23:59:59, 23:59:60, nanoseconds; lists of length 0..6 "
+                "with empty strings, as Vec<&str> and Vec<String>) x "
                 "td_string!/td_display!/td!, every option combination through td_format_string!/td_format_display!, each "
                 "compared with a direct ICU4X call using the options the parser selected; %d rounds of %d random cache "
                 "operations executed by one thread and by 8 threads started together (6+ blocks of 8 first uses of one key per "
